@@ -57,7 +57,7 @@ struct Scenario {
     int policy = 0; bool extendingAllowed = true; bool hasUserPub = false; Pub userPub;
     int pfSource = 0; /* 0 none, 1 user supplied, 2 download trusted, 3 download signed by an unanchored signer, 4 download http error, 5 download garbage */
     std::vector<Pub> filePubs; int certMode = 0; /* 0 none, 1 right id, 2 other id only */ int window = 0; /* 0 covers, 1 ends before t, 2 starts after t, 3 starts at t, 4 ends at t, 5 starts after t but before the publication */
-    int authSig = 0; /* 0 valid, 1 value altered, 2 made with another key */ bool internalBad = false; std::string internalMut;
+    int authSig = 0; /* 0 valid, 1 value altered, 2 made with another key, 3 arbitrary octets, 4 valid value plus a trailing octet, 5 last octet cut */ bool ecKey = false; /* listed certificate carries an EC key (signature value is a DER structure) */ bool internalBad = false; std::string internalMut;
 };
 enum ExpKind { X_BOUND, X_FAIL, X_INCONCLUSIVE, X_UNASSERTED };
 struct Exp { int kind = X_UNASSERTED; std::set<int> codes; std::string why; bool errorStatusAlsoFine = false; /* an earlier stage failed in a way that may surface as an error status */ };
@@ -132,10 +132,12 @@ void harness_case(Dec &d, Case &c) {
     Plan pl; pl.dev = d.pick(8) < 3 ? D_CORRECT : (int)d.pick(D_COUNT); pl.sel = d.pick(256); pl.ver = d.pick(4) == 0 ? 1 : 2; pl.head = w.t + 100000 + d.pick(1000000); { static const uint64_t sts[] = {0x101, 0x102, 0x104, 0x105, 0x200, 0x300, 1}; pl.status = sts[d.pick(7)]; }
     if (pl.dev == D_AGGR_COHERENT && w.t < 2) pl.dev = D_CORRECT;
     // ---- authentication record: real PKI signature over the published data ------------------------------------------------
-    sc.authSig = d.pick(4) == 0 ? 1 + (int)d.pick(2) : 0; sc.window = d.pick(3) == 0 ? 1 + (int)d.pick(5) : 0; sc.certMode = d.pick(6) == 0 ? (d.flag() ? 0 : 2) : 1;
+    sc.authSig = d.pick(4) == 0 ? 1 + (int)d.pick(5) : 0; sc.ecKey = pl.head % 4 == 3; /* derived from an existing draw so that saved replay files keep their meaning */ sc.window = d.pick(3) == 0 ? 1 + (int)d.pick(5) : 0; sc.certMode = d.pick(6) == 0 ? (d.flag() ? 0 : 2) : 1;
     if (sc.window == 5 && !(w.sig.hasCal && w.p > w.t + 1)) sc.window = 2;
     if (w.sig.hasAuth) { w.sig.auth.certId = kCertId; w.sig.auth.sigType = "1.2.840.113549.1.1.11"; Bytes data = w.sig.auth.data.toTlv().enc();
-        Bytes sv = TestPki::rawSign(sc.authSig == 2 ? pki.s[1].key : pki.s[0].key, data, EVP_sha256()); if (sc.authSig == 1) sv[d.pick((uint32_t)sv.size())] ^= 0x20; w.sig.auth.sigValue = sv; }
+        Bytes sv = TestPki::rawSign(sc.authSig == 2 ? pki.s[1].key : (sc.ecKey ? pki.ecKey : pki.s[0].key), data, EVP_sha256()); if (sc.authSig == 1) sv[d.pick((uint32_t)sv.size())] ^= 0x20;
+        else if (sc.authSig == 3) { unsigned n = 1 + d.pick(96); sv.clear(); for (unsigned i = 0; i < n; i++) sv.push_back((uint8_t)(i * 37 + n)); } else if (sc.authSig == 4) sv.push_back(0x00); else if (sc.authSig == 5) sv.pop_back();
+        w.sig.auth.sigValue = sv; }
     // ---- internal inconsistency (optional) ----------------------------------------------------------------------------------
     World base = w; // anchors are derived from the consistent original
     if (d.pick(6) == 0) { static const int ks[] = {SM_NEXT_INPUT, SM_SIBLING, SM_CORR, SM_CHAIN_TIME, SM_INDEX_LAST, SM_LINK_DIR, SM_CAL_INPUT, SM_CAL_AGGRTIME, SM_CAL_DIR, SM_CAL_PUBTIME, SM_CAL_SIBLING, SM_REC_TIME, SM_REC_HASH};
@@ -152,7 +154,7 @@ void harness_case(Dec &d, Case &c) {
     // ---- publications file bytes --------------------------------------------------------------------------------------------
     Bytes fileBytes; { std::vector<Tlv> recs; recs.push_back(headerRec());
         if (sc.certMode) { uint64_t nb = 946684800, na = 4102444799ULL; switch (sc.window) { case 1: na = base.t - 1 - d.pick(100000); break; case 2: nb = base.t + 1 + d.pick(100000); break; case 3: nb = base.t; break; case 4: na = base.t; break; case 5: nb = base.t + 1 + d.pick((uint32_t)(base.p - base.t - 1)); break; default: break; }
-            X509 *cert = pki.mint(pki.rootA, pki.s[0].key, {{"C", "EE"}, {"O", "Verif Publisher"}, {"CN", "Calendar signer"}}, asn1Time(nb).c_str(), asn1Time(na).c_str(), 77, false); Bytes der = TestPki::derOf(cert); X509_free(cert);
+            X509 *cert = pki.mint(pki.rootA, sc.ecKey ? pki.ecKey : pki.s[0].key, {{"C", "EE"}, {"O", "Verif Publisher"}, {"CN", "Calendar signer"}}, asn1Time(nb).c_str(), asn1Time(na).c_str(), 77, false); Bytes der = TestPki::derOf(cert); X509_free(cert);
             Tlv cr(0x702); cr.add(Tlv::raw(0x01, sc.certMode == 1 ? kCertId : Bytes{1, 2, 3, 4})); cr.add(Tlv::raw(0x02, der)); recs.push_back(cr); }
         for (auto &p : sc.filePubs) { PubRecord r; r.data.time = p.time; r.data.hash = p.hash; recs.push_back(r.toTlv(0x703)); }
         static const char m[] = "KSIPUBLF"; fileBytes.assign(m, m + 8); for (auto &r : recs) r.encode(fileBytes);
@@ -200,8 +202,9 @@ void harness_case(Dec &d, Case &c) {
     std::string fp; for (auto &p : sc.filePubs) fp += p.what + " ";
     static const char *kSrc[] = {"none", "supplied", "downloaded", "downloaded-unanchored-signer", "download-http-error", "download-garbage"};
     c.desc = std::string(kPolName[sc.policy]) + " sig=" + sk + (sc.internalBad ? " internal-mutation=" + sc.internalMut : "") + " user-pub=" + (sc.hasUserPub ? sc.userPub.what : "none") + " file=" + kSrc[sc.pfSource] + "[" + fp + "] cert=" + (sc.certMode == 0 ? "none" : sc.certMode == 1 ? std::string("listed/") + kWindowName[sc.window] : "other-id") +
-             (base.sig.hasAuth ? std::string(" auth-sig=") + (sc.authSig == 0 ? "valid" : sc.authSig == 1 ? "altered" : "other-key") : "") + " extending=" + (sc.extendingAllowed ? "allowed" : "forbidden") + " extender=" + kDevName[pl.dev] + " v" + num(pl.ver) + (tcp ? " tcp" : " http") + " => expect " +
+             (base.sig.hasAuth ? std::string(" auth-sig=") + (sc.authSig == 0 ? "valid" : sc.authSig == 1 ? "altered" : sc.authSig == 2 ? "other-key" : sc.authSig == 3 ? "arbitrary-octets" : sc.authSig == 4 ? "trailing-octet" : "cut") + (sc.ecKey ? "/ec" : "/rsa") : "") + " extending=" + (sc.extendingAllowed ? "allowed" : "forbidden") + " extender=" + kDevName[pl.dev] + " v" + num(pl.ver) + (tcp ? " tcp" : " http") + " => expect " +
              (e.kind == X_BOUND ? "bound" : e.kind == X_FAIL ? "FAIL" : e.kind == X_INCONCLUSIVE ? "inconclusive" : "nothing") + "(" + e.why + ")";
+    if (base.sig.hasAuth && sc.certMode == 1 && (sc.policy == P_KEY || sc.policy == P_GENERAL)) { static const char *an[] = {"valid", "altered", "other-key", "arbitrary-octets", "trailing-octet", "cut"}; c.cls(std::string("auth-sig:") + an[sc.authSig] + (sc.ecKey ? "/ec" : "/rsa")); }
     c.nontrivial = true; c.cls(std::string("policy:") + kPolName[sc.policy]); c.cls("sig:" + sk); c.cls(std::string("extender:") + kDevName[pl.dev]); if (extRequests) c.cls("extender-contacted"); if (pubFetches) c.cls("publications-file-downloaded");
     std::string obs = rc != KSI_OK ? "error-status" : (resultCode == KSI_VER_RES_OK ? "OK" : resultCode == KSI_VER_RES_FAIL ? "FAIL" : "NA"); c.cls("observed:" + obs);
     std::string got = obs + "(" + num(rc != KSI_OK ? rc : errorCode) + ")";
